@@ -203,7 +203,9 @@ def file_case(draw):
     bad = draw(st.sampled_from(["none", "none", "none", "head", "tail"]))
     where = draw(st.sampled_from(["file", "file", "dotlicense"]))
     nonascii_filler = draw(st.booleans())
-    return {"eol": eol, "head": head, "edge": edge, "edge_seg": edge_seg, "edge_pos": edge_pos, "tail": tail,
+    # a two-byte character whose bytes sit on either side of the 4096-byte cut
+    split_char = edge == "none" and snippet != "straddle" and draw(st.booleans())
+    return {"split_char": split_char, "eol": eol, "head": head, "edge": edge, "edge_seg": edge_seg, "edge_pos": edge_pos, "tail": tail,
             "snippet": snippet, "bad": bad, "where": where, "nonascii_filler": nonascii_filler, "straddle": straddle}
 
 
@@ -276,8 +278,11 @@ def build_file(c):
             pad_to(c["edge_pos"])
             add_line(c["edge_seg"]["lines"][0])
             outside.append(c["edge_seg"]["tag"])
+    if c.get("split_char") and len(out) < WINDOW - 1:
+        pad_to(WINDOW - 1)
+        out += "é".encode("utf-8") + eol.encode()
     if len(out) < WINDOW + 8:
-        if c["tail"] or c["snippet"] == "tail" or c["bad"] == "tail":
+        if c["tail"] or c["snippet"] == "tail" or c["bad"] == "tail" or c.get("split_char"):
             pad_to(WINDOW + 8)
     if len(out) >= WINDOW + 8:
         if c["snippet"] == "tail":
@@ -333,7 +338,7 @@ def check_file(ctx, c):
         g_lic = {_norm_expr(x) for x in g_lic}
         alltags = inside + outside
         ctx.count(data, nontrivial=any(t["form"] != "bare" for t in alltags) and bool(alltags),
-                  labels=[f"eol:{c['eol']!r}", f"edge:{c['edge']}", f"snippet:{snippet}", f"bad:{'scanned' if bad else 'unscanned' if (bad_in or bad_out) else 'none'}",
+                  labels=[f"eol:{c['eol']!r}", f"split-char-at-4096:{bool(c.get('split_char'))}", f"edge:{c['edge']}", f"snippet:{snippet}", f"bad:{'scanned' if bad else 'unscanned' if (bad_in or bad_out) else 'none'}",
                           f"where:{c['where']}", f"outside-tags:{len(outside)}"],
                   sample={"eol": c["eol"], "edge": c["edge"], "edge_pos": c["edge_pos"], "snippet": c["snippet"], "bad": c["bad"], "where": c["where"],
                           "edge_line": c["edge_seg"]["lines"] if c["edge_seg"] else None, "size": len(data)})
